@@ -345,12 +345,31 @@ def classify_exc(e: BaseException) -> str:
 
 
 # ----------------------------------------------------------------------------- real Processor
-class RealProcessor(Processor):
-    """A Processor that really moves rows between SQLite and the iteration engine."""
+class LazyTransferRows(iteration.RowIterable):
+    """Payload of a transfer into an iteration engine that was NOT asked to be cacheable
+    (``materialize_as is None``): every iteration re-evaluates the source, as a streaming
+    cursor would.  ``reads`` counts the evaluations."""
 
-    def __init__(self, ctx: Ctx):
+    def __init__(self, processor, source):
+        self.processor, self.source, self.reads = processor, source, 0
+
+    def __iter__(self):
+        self.reads += 1
+        cols, rows = self.processor._rows(self.source)
+        return iter([{A.tag(c): r[c] for c in cols} for r in rows])
+
+
+class RealProcessor(Processor):
+    """A Processor that really moves rows between SQLite and the iteration engine.
+
+    With ``lazy_transfers`` a transfer into an iteration engine returns a cacheable (materialized)
+    payload only when the Processor asks for one (``materialize_as`` given), as the hook's documentation
+    allows; otherwise the payload re-evaluates its source on every read."""
+
+    def __init__(self, ctx: Ctx, lazy_transfers: bool = False):
         self.ctx = ctx
         self.log: list = []
+        self.lazy_transfers = lazy_transfers
 
     def _rows(self, rel):
         eng = rel.engine
@@ -367,6 +386,8 @@ class RealProcessor(Processor):
 
     def transfer(self, source, destination, materialize_as):
         self.log.append(("transfer", str(source), source.is_trivial, materialize_as))
+        if self.lazy_transfers and materialize_as is None and isinstance(destination, iteration.Engine):
+            return LazyTransferRows(self, source)
         cols, rows = self._rows(source)
         return self._payload_for(destination, cols, rows, "xfer")
 
